@@ -83,6 +83,20 @@ def run(res):
                 lv = r.choice([2, 8, 10, 1, 5])
                 ops += ["add:" + opgen.block_spec(r, lv, valid=True) for _ in range(r.choice([2, 5, 9]))]
             lines.append("seq rpu %s %s" % (raw.hex(), " ".join(ops)))
+    # search after a broken obligation: an unrecognised table entry names its level; exercise that
+    # level's blocks with every field at and just past its bounds on top of the regular stream
+    import re
+    hot = set()
+    for b in broken:
+        for mm in re.finditer(r"level(\d+)", str(b.get("log") or "") + str(b.get("where") or ""), flags=re.I):
+            hot.add(int(mm.group(1)))
+    for lv in sorted(hot):
+        if lv not in opgen.ALL_LEVELS:
+            continue
+        for _ in range(600):
+            raw = r.choice(raws[:200])
+            ops = [r.choice(["repl:", "add:", "repllvl:"]) + opgen.block_spec(r, lv, valid=False, full_range=True) for _ in range(r.choice([1, 1, 2]))]
+            lines.append("seq rpu %s %s" % (raw.hex(), " ".join(ops)))
     m = C.run_sharded(C.model, lines)
     i = C.run_sharded(C.dvh, lines)
     nd = 0
